@@ -344,9 +344,18 @@ def union_cases(rng, n):
     return out
 
 
+def corpus():
+    """minimised past failures (corpus/C06/*.json), replayed first on every run"""
+    import glob
+    import json
+
+    d = os.path.join(os.path.dirname(WORK), "corpus", ID)
+    return [json.load(open(f))["case"] for f in sorted(glob.glob(os.path.join(d, "*.json")))]
+
+
 def gen(tier, seed):
     rng = random.Random(f"C06-{seed}")
-    cases = []
+    cases = corpus()
     apis = api_variants()
     quick = tier == "quick"
     # (1) small schemas: every leaf through all 2^5 subsets
